@@ -42,7 +42,10 @@ type DB interface {
 
 func PrepareServer(db DB, l net.Listener, opts *Opts) (func() error, func()) {
 	l = &rpc.SnappyListener{l}
-	gs := grpc.NewServer(grpc.CustomCodec(rpc.Codec))
+	// Rows can get much larger than gRPC's default limit of 4 MB per message
+	// (a row holds one value per period for every field), so don't limit the
+	// size of messages.
+	gs := grpc.NewServer(grpc.CustomCodec(rpc.Codec), grpc.MaxRecvMsgSize(rpc.MaxMessageSize), grpc.MaxSendMsgSize(rpc.MaxMessageSize))
 	gs.RegisterService(&rpc.ServiceDesc, &server{golog.LoggerFor(fmt.Sprintf("zenodb.rpc (%d)", opts.ID)), db, opts.ID, opts.Password})
 	return func() error { return gs.Serve(l) }, gs.Stop
 }
